@@ -745,7 +745,11 @@ def run_hilbert_case(ctx, spec, reqs, impl):
         for n, op in enumerate([init] + ops):
             if n:
                 try:
-                    if op[0] == "X":
+                    if op[0] == "C":
+                        # clear_cache() drops the stored phase: no change of the network, and
+                        # later setters must still apply the phase condition (model: no-op)
+                        net.clear_cache()
+                    elif op[0] == "X":
                         net.set_directed(op[1])
                         want_dir = op[1]
                         S = np.array(net.similarity_measure(), dtype=float)
@@ -755,6 +759,14 @@ def run_hilbert_case(ctx, spec, reqs, impl):
                     else:
                         apply_op(net, op)
                         toks.append(enc_op(op))
+                    if op[0] == "C":
+                        S_now = np.array(net.similarity_measure(), dtype=float)
+                        if hilbert_state_of(net) != states[-1] or not np.array_equal(S_now, S):
+                            ctx.fail(dict(sig, kind="clear_cache-changes-network"),
+                                     "clear_cache() changed the reported network",
+                                     dict(rep, call_index=n))
+                        ctx.count("hilbert op=C")
+                        continue
                 except Exception as e:  # noqa
                     ctx.fail(dict(sig, kind="raises", call="setter:" + op[0],
                                   error=type(e).__name__),
@@ -828,7 +840,8 @@ def run_hilbert_case(ctx, spec, reqs, impl):
 
 
 def ops_of_h(lst):
-    return [("X", bool(v)) if k == "X" else ops_of([[k, v]])[0] for k, v in lst]
+    return [("X", bool(v)) if k == "X" else ("C", None) if k == "C" else ops_of([[k, v]])[0]
+            for k, v in lst]
 
 
 def op_repr_h(op):
@@ -863,7 +876,9 @@ def hilbert_histories(ctx, rng, nprng, quick):
         ops = []
         for _k in range(rng.choice([1, 2, 4, 7])):
             r = rng.random()
-            if r < 0.3:
+            if r < 0.12:
+                ops.append(("C", None))
+            elif r < 0.35:
                 ops.append(("X", rng.random() < 0.5))
             elif r < 0.55:
                 ops.append(("T", f32(gen_threshold(rng, S0))))
